@@ -430,7 +430,12 @@ class Check:
             "samples": self.samples if self.samples else [{"note": "no sample recorded"}],
         }
         if exhaustive is not None:
-            cov["exhaustive"] = exhaustive
+            # (the schema wants a truth value; a description of WHAT was enumerated goes next to it)
+            if isinstance(exhaustive, bool):
+                cov["exhaustive"] = exhaustive
+            else:
+                cov["exhaustive"] = False
+                cov["enumerated"] = str(exhaustive)
         cov.update(self.extra)
         ev = {
             "property_id": self.pid,
